@@ -27,7 +27,7 @@ TIMEOUT = {"quick": 900, "thorough": 3600}
 ANCHORS = {"matrix_functions.py": ["matrix_inverse_root", "_matrix_inverse_root_diagonal", "_matrix_inverse_root_eigen", "_matrix_inverse_root_newton", "_matrix_inverse_root_higher_order"]}
 
 C_M = {"eig": 16.0, "eig_stab": 16.0, "newton": 16.0, "ho": 256.0, "diag": 16.0, "scalar": 16.0}
-KINDS = ["geometric", "clustered", "repeated", "rank_deficient", "one_big", "uniform"]
+KINDS = ["geometric", "clustered", "repeated", "rank_deficient", "one_big", "uniform", "zero"]
 ROOTS = [Fraction(1), Fraction(2), Fraction(3), Fraction(4), Fraction(6), Fraction(8), Fraction(10), Fraction(400, 182), Fraction(3, 2), Fraction(8, 3), Fraction(2, 3)]
 INT_ROOTS = [1, 2, 3, 4, 6, 8]
 HO_ROOTS = [Fraction(1), Fraction(2), Fraction(3), Fraction(4), Fraction(6), Fraction(3, 2), Fraction(4, 3), Fraction(5, 2)]
@@ -100,7 +100,7 @@ def run_case(case):
         max_dec = int(-math.log10(u))  # up to the dtype's resolution
         logk = rnd.choice(range(0, max_dec + 1)) if rnd.random() < 0.8 else rnd.choice([0, 1, 2, 3])
         scale = rnd.choice([1e-6, 1e-3, 1.0, 1.0, 1e3, 1e6])
-        eps = scale * 10.0 ** rnd.choice([-12, -10, -8, -6, -5, -4, -3, -2, -1])
+        eps = scale * 10.0 ** rnd.choice([-12, -10, -8, -6, -5, -4, -3, -2, -1, -1, 0, 1, 3])  # epsilon may dominate A
         if solver in ("newton", "ho") and rnd.random() < 0.7:
             # iterative solvers are mostly fed moderately conditioned problems so that convergence is exercised
             logk = min(logk, rnd.choice([0, 1, 2, 3, 4]))
